@@ -871,7 +871,7 @@ FNS_HEADER = """(* GENERATED by translator/gen.py from the current /repo working
    as expressions); Props/C04.v proves that they are the lookups of Model/History.v. *)
 From Coq Require Import List NArith ZArith Bool.
 Import ListNotations.
-From MHL Require Import Gen.Generated Model.History Model.Emit.
+From MHL Require Import Gen.Generated Model.History Model.Tree Model.Emit.
 Definition is_none {A} (o : option A) : bool := match o with None => true | Some _ => false end.
 Definition opt_action_eqb (a b : option action) : bool :=
   match a, b with Some x, Some y => action_eqb x y | None, None => true | _, _ => false end.
@@ -1131,6 +1131,60 @@ def tx_exit_decision(repo, fn_name, coq_name, with_folders=False):
             + "\n  ".join(lets) + f"\n  match exception with Some code => code | None => {final} end.\n")
 
 
+def tx_chain_check(repo):
+    """history.MHLHistory.load_from_path: the loop over the chain's generations.  The file-system and hashing primitives are
+    mapped to the model's: os.path.exists(expected_file) / the file itself -> the manifest with the entry's file number among
+    the folder's manifests; hasher.hash_file(expected_file, generation.hash_format) -> cdig of its content."""
+    item = "load_from_path: chain check"
+    mod = parse(repo, "ascmhl/history.py")
+    fn = find_func(find_class(mod, "MHLHistory", "MHLHistory").body, "load_from_path", item)
+    guards = [st for st in fn.body if isinstance(st, ast.If) and ast.unparse(st.test) == "history.chain.generations"]
+    if len(guards) != 1 or guards[0].orelse or len(guards[0].body) != 1 or not isinstance(guards[0].body[0], ast.For):
+        fail(item, "expected one `if history.chain.generations:` holding one for loop")
+    loop = guards[0].body[0]
+    if ast.unparse(loop.target) != "generation" or ast.unparse(loop.iter) != "history.chain.generations" or loop.orelse or len(loop.body) != 2:
+        fail(item, f"loop head / body outside the translated fragment: {ast.unparse(loop)[:200]}")
+    if ast.unparse(loop.body[0]) != "expected_file = os.path.join(asc_mhl_folder_path, generation.ascmhl_filename)":
+        fail(item, f"unexpected statement {ast.unparse(loop.body[0])}")
+    br = loop.body[1]
+    if not isinstance(br, ast.If) or ast.unparse(br.test) != "os.path.exists(expected_file)" or len(br.body) != 2 or len(br.orelse) != 1:
+        fail(item, f"unexpected branch {ast.unparse(br)[:200]}")
+    if ast.unparse(br.body[0]) != "hash = hasher.hash_file(expected_file, generation.hash_format)":
+        fail(item, f"unexpected statement {ast.unparse(br.body[0])}")
+    cmp_ = br.body[1]
+    codes = dict(EXC_CLASSES)
+
+    def raised(st):
+        if isinstance(st, ast.Raise) and isinstance(st.exc, ast.Call) and ast.unparse(st.exc.func).startswith("errors.") and ast.unparse(st.exc.func)[7:] in codes \
+                and [ast.unparse(a) for a in st.exc.args] == ["expected_file"]:
+            return codes[ast.unparse(st.exc.func)[7:]]
+        fail(item, f"expected `raise errors.X(expected_file)`, found {ast.unparse(st)}")
+
+    if not isinstance(cmp_, ast.If) or cmp_.orelse or len(cmp_.body) != 1:
+        fail(item, f"unexpected comparison statement {ast.unparse(cmp_)[:200]}")
+    t = ast.unparse(cmp_.test)
+    if t == "hash != generation.hash_string":
+        cond = "negb (text_eqb (cdig (mf_content file)) (Tree.ce_digest generation))"
+    elif t == "hash == generation.hash_string":
+        cond = "text_eqb (cdig (mf_content file)) (Tree.ce_digest generation)"
+    else:
+        fail(item, f"comparison outside the translated fragment: {t}")
+    on_diff, on_missing = raised(cmp_.body[0]), raised(br.orelse[0])
+    # the chain file itself
+    pre = [ast.unparse(st) for st in fn.body]
+    want = "if os.path.exists(asc_mhl_folder_path) and (not os.path.exists(file_path)):\n    raise errors.NoMHLChainException(file_path)"
+    if want not in pre or pre.index(want) > fn.body.index(guards[0]):
+        fail(item, "expected the missing-chain check before the loop")
+    return ("(* history.py:MHLHistory.load_from_path -- the check of the chain file and of every manifest it lists *)\n"
+            "Fixpoint src_check_generations (C : Type) (cdig : C -> text) (files : list (mfile C)) (generations : list centry) : option Z :=\n"
+            "  match generations with\n  | [] => None\n  | generation :: rest =>\n"
+            "      match find (fun m => N.eqb (mf_no C m) (Tree.ce_file generation)) files with\n"
+            f"      | Some file => if {cond.replace('mf_content file', 'mf_content C file')} then Some {on_diff} else src_check_generations C cdig files rest\n"
+            f"      | None => Some {on_missing}\n      end\n  end.\n"
+            "Definition src_check_chain (C : Type) (cdig : C -> text) (h : hist C) : option Z :=\n"
+            "  match h_chain C h with\n  | None => Some exit_no_chain\n  | Some generations => src_check_generations C cdig (h_files C h) generations\n  end.\n")
+
+
 def generate_fns(repo):
     """-> (text of GeneratedFns.v, [error strings]); a function whose source is outside the translated fragment is left out
     (its obligations then do not build -- only the property file that names it is affected), the others are still emitted"""
@@ -1155,6 +1209,7 @@ def generate_fns(repo):
     add(lambda: tx_exit_decision(repo, "verify_entire_folder", "src_verify_exit"))
     add(lambda: tx_exit_decision(repo, "diff_entire_folder_against_full_history_subcommand", "src_diff_exit"))
     add(lambda: tx_exit_decision(repo, "create_for_folder_subcommand", "src_create_exit", with_folders=True))
+    add(lambda: tx_chain_check(repo))
     return "\n".join(parts), errors
 
 
@@ -1210,7 +1265,7 @@ def main(argv):
             with open(path + ".tmp", "w", encoding="utf-8") as fh:
                 fh.write(content)
             os.replace(path + ".tmp", path)
-    print(json.dumps({"ok": True, "changed": changed, "items": len(summary) + 8 - len(fn_errors), "shape_warnings": WARNINGS,
+    print(json.dumps({"ok": True, "changed": changed, "items": len(summary) + 9 - len(fn_errors), "shape_warnings": WARNINGS,
                       **({"function_translation_failed": fn_errors} if fn_errors else {})}))
     return 0
 
